@@ -19,7 +19,11 @@ pub struct Ref<T: 'static> {
 
 impl<T: 'static + Trace + DebugHeap> Ref<T> {
   pub fn alloc_result(data: T) -> AllocResult<Ref<T>> {
+    #[cfg(feature = "verif")]
+    let verif_managed = crate::verif::ManagedAlloc::enter();
     let mut handle = Box::new(Allocation::new(data));
+    #[cfg(feature = "verif")]
+    drop(verif_managed);
     let ptr = unsafe { NonNull::new_unchecked(&mut *handle) };
     let reference = Ref::from(ptr);
     let size = handle.size();
